@@ -35,6 +35,8 @@ pub struct FaultCtl {
     pub log: RefCell<Vec<String>>,
     /// optional predicate-style fault: fail every bank send whose recipient is this address
     pub fail_send_to: RefCell<Option<String>>,
+    /// optional predicate-style fault (a frozen token): fail every bank send by `from` that contains `denom`
+    pub frozen: RefCell<Option<(String, String)>>,
 }
 
 impl FaultCtl {
@@ -100,6 +102,13 @@ impl Module for FaultyBank {
         ExecC: CustomMsg + DeserializeOwned + 'static,
         QueryC: CustomQuery + DeserializeOwned + 'static,
     {
+        if let BankMsg::Send { amount, .. } = &msg {
+            if let Some((from, denom)) = self.ctl.frozen.borrow().as_ref() {
+                if sender.as_str() == from && amount.iter().any(|c| &c.denom == denom) {
+                    anyhow::bail!("injected fault: transfers of {denom} by {from} are frozen")
+                }
+            }
+        }
         if let BankMsg::Send { to_address, .. } = &msg {
             if let Some(t) = self.ctl.fail_send_to.borrow().as_ref() {
                 if t == to_address {
